@@ -226,6 +226,8 @@ class TdmsSegment(object):
             # For strings, we also need to write the total data size in bytes
             if obj.data_type == String:
                 total_size = object_data_size(obj.data_type, obj.data)
+                # The index length includes the extra 8 bytes of the total size
+                data_index[0] = Uint32(28)
                 data_index.append(Uint64(total_size))
 
             return data_index
